@@ -2,6 +2,7 @@
 //
 //	c12 replay -edges F -keys a,b -rep N -out R [-sample K]   replay every TLC edge through the public metric API
 //	c12 random -n N -out TRACE -res R                         random pipelines/streams -> ndjson trace for TLC
+//	c12 conc   -storms N -out TRACE -res R                    concurrent scenarios (conc.go) -> ndjson trace for TLC
 //	c12 probe  -cfg JSON -ops JSON -keys a,b -rep N           run one scenario, print the collections (debugging aid)
 //
 // The harness only executes and projects: it builds a MeterProvider (ManualReader, views) from an
@@ -586,7 +587,7 @@ func viewOf(v ViewC, keys []string, rep int) sdkmetric.View {
 	}
 	crit.Scope.Name, crit.Scope.Version, crit.Scope.SchemaURL = v.MSN, v.MSV, v.MSU
 	return sdkmetric.NewView(crit, sdkmetric.Stream{Name: v.Name, Unit: v.Unit, Description: v.Desc,
-		Aggregation: aggOf(v.Agg), AttributeFilter: filterOf(v.Filt, keys, rep)})
+		Aggregation: aggOf(v.Agg), AttributeFilter: filterOf(v.Filt, keys, rep), ExemplarReservoirProviderSelector: resSelHook})
 }
 
 func (w *world) measure(op Op) {
@@ -1691,6 +1692,8 @@ func main() {
 		random(os.Args[2:])
 	case "probe":
 		probe(os.Args[2:])
+	case "conc":
+		conc(os.Args[2:])
 	default:
 		os.Exit(3)
 	}
